@@ -633,8 +633,8 @@ func confs(thorough bool) []Conf {
 }
 
 func describe(r *ev.Run) {
-	r.Rule("E1: BFS to fixpoint over the real range plugin on a real sqlite file (tmpfs). Ops: DISCOVER(m), REQUEST(m, hostname) for N+1 clients (one with an 8-byte chaddr) on ranges of N addresses, RESTART (Setup4 again on the same file) with the same and with another lease time; thorough adds pre-filled ranges (65 addresses with 63 bound: bitmap word boundary; a range ending at 255.255.255.255). State key = records + bitmap + lease time (hook H3) + ghost of the address first replied to each client. For C03 every state reached is a crash point: the DB file is copied and the real plugin started on the copy. Linear sweeps: ranges of 1..257 addresses filled to exhaustion; chaddr lengths 0..16 and hostile hostnames with a restart after each. Class = op/outcome.")
-	r.Assume("sqlite's own journal recovery (crash inside one SQL statement) and I/O errors are not modelled; the clock is only compared one-sidedly; the exploration runs in a worker process so that a fatal error of the code under test is reported, not suffered")
+	r.Rule("E1: BFS to fixpoint over the real range plugin on a real sqlite file (tmpfs). Ops: DISCOVER(m), REQUEST(m, hostname) for N+1 clients (one with an 8-byte chaddr) on ranges of N addresses, RESTART (Setup4 again on the same file) with the same and with another lease time; thorough adds pre-filled ranges (65 addresses with 63 bound: bitmap word boundary; a range ending at 255.255.255.255). State key = records + bitmap + lease time (hook H3) + ghost of the address first replied to each client. For C03 every state reached is a crash point: the DB file is copied and the real plugin started on the copy. Linear sweeps: ranges of 1..257 addresses filled to exhaustion; chaddr lengths 0..16 and hostile hostnames with a restart after each. Further ops of the alphabet: option 61 variants, restart with the range moved, restart on the database opened read-only (environment fault), all leases aged by 2 h. Sweeps: time gaps of 1 s .. 61 min between two requests of one client (3 lease times); every other option code in 3 payload shapes added to requests (irrelevant-option closure); upgrade histories on a harness-written database with the released schema. C03 additionally: statement-level crash points and lock-contention scenarios under the cooperative scheduler with a virtual clock. Class = op/outcome.")
+	r.Assume("sqlite's own journal recovery (crash inside one SQL statement) and I/O errors other than a read-only database are not modelled; the clock is only compared one-sidedly; the exploration runs in a worker process so that a fatal error of the code under test is reported, not suffered")
 }
 
 func run(r *ev.Run, id string) {
